@@ -64,7 +64,7 @@ Renew(rs) ==
   /\ granted' = granted \cup {[rs |-> rs, exp |-> clock + Duration]}
   /\ UNCHANGED clock
 \* time passes, or the clock is set back
-Tick == (\E t \in Int : clock' = t) /\ UNCHANGED <<L, granted>>
+Tick == clock' \in Int /\ UNCHANGED <<L, granted>>
 
 Next == (\E rs \in Secrets : \E cs \in Secrets : Add(rs, cs)) \/ (\E rs \in Secrets : Renew(rs)) \/ Tick
 Spec == Init /\ [][Next]_vars
